@@ -348,7 +348,7 @@ def run_configs(ctx):
     cfgs = [dict(c) for c in json.loads((CORPUS / 'run_seeds.json').read_text())]
     m = ctx.n(1, 5)
     for hyd, flash in (('idx', False), ('idx', True), ('imp', False)):
-        for op, w in ((None, 10), ('split', 8), ('artesian', 4), ('fast', 4), ('nosplit', 1), ('toofast', 1)):
+        for op, w in ((None, 8), ('split', 7), ('artesian', 4), ('fast', 4), ('nosplit', 1), ('toofast', 1)):
             cfgs += [make_config(ctx, hyd, flash, op) for _ in range(w * m)]
     # district heating: Model.Calculate runs the wellbores a second time on the same model
     cfgs += [make_config(ctx, hyd, False, op, dh=True) for hyd, op in (('idx', None), ('imp', None), ('idx', 'split'), ('imp', 'split'))
@@ -837,22 +837,30 @@ def correspondence(ctx, proofs_ok=True):
     import time
     W, t = _W(), [time.time()]
     lap = lambda name: (t.append(time.time()), ctx.note(f'{name}: {t[-1] - t[-2]:.1f} s'))
-    examples = examples_start(ctx) if not ctx.quick or os.environ.get('VERIF_C15_EXAMPLES') else None
-    check_pred(ctx, pred_cases(ctx, W))
-    lap('predictors')
-    specs = json.loads((CORPUS / 'friction_seeds.json').read_text()) + [sweep_spec(ctx) for _ in range(ctx.n(35, 700))]
-    check_friction(ctx, specs)
-    lap('friction sweeps')
-    check_pump(ctx, json.loads((CORPUS / 'pump_seeds.json').read_text()) + [pump_spec(ctx) for _ in range(ctx.n(12, 300))])
-    lap('hydraulic functions vs diameter')
-    check_hydro(ctx, json.loads((CORPUS / 'hydro_seeds.json').read_text()) + [hydro_spec(ctx) for _ in range(ctx.n(25, 600))])
-    lap('hydrostatic correlation')
-    cfgs, pairs = run_configs(ctx), pair_configs(ctx)
-    results = runner.run_many(ctx, [c['text'] for c in cfgs] + [t for pr in pairs for t in pr['texts']])
-    lap('whole runs')
-    check_runs(ctx, cfgs, results[:len(cfgs)])
-    check_pairs(ctx, pairs, results[len(cfgs):])
-    lap('snapshot checks')
+    only = os.environ.get('VERIF_C15_PARTS')      # debugging aid (mutation trials): comma-separated subset of the parts below
+    want = lambda part: not only or part in only.split(',')
+    if only:
+        ctx.note(f'PARTIAL RUN, parts: {only}')
+    examples = examples_start(ctx) if want('examples') and (not ctx.quick or os.environ.get('VERIF_C15_EXAMPLES')) else None
+    if want('pred'):
+        check_pred(ctx, pred_cases(ctx, W))
+        lap('predictors')
+    if want('friction'):
+        check_friction(ctx, json.loads((CORPUS / 'friction_seeds.json').read_text()) + [sweep_spec(ctx) for _ in range(ctx.n(35, 700))])
+        lap('friction sweeps')
+    if want('pump'):
+        check_pump(ctx, json.loads((CORPUS / 'pump_seeds.json').read_text()) + [pump_spec(ctx) for _ in range(ctx.n(12, 300))])
+        lap('hydraulic functions vs diameter')
+    if want('hydro'):
+        check_hydro(ctx, json.loads((CORPUS / 'hydro_seeds.json').read_text()) + [hydro_spec(ctx) for _ in range(ctx.n(25, 600))])
+        lap('hydrostatic correlation')
+    if want('runs'):
+        cfgs, pairs = run_configs(ctx), pair_configs(ctx)
+        results = runner.run_many(ctx, [c['text'] for c in cfgs] + [t for pr in pairs for t in pr['texts']])
+        lap('whole runs')
+        check_runs(ctx, cfgs, results[:len(cfgs)])
+        check_pairs(ctx, pairs, results[len(cfgs):])
+        lap('snapshot checks')
     if examples:
         examples_collect(ctx, examples, deadline_s=int(os.environ.get('VERIF_C15_EXAMPLE_DEADLINE', 720)))
         lap('examples (all wellbore classes)')
